@@ -386,3 +386,99 @@ class ENum(enum.IntEnum):
 
 def ufunc(*a, **k):       # a callable object of the universe
     return None
+
+
+# --------------------------------------------------------------------------- counting stand-ins for builtin containers
+# (C09 replays only: a builtin dict / list cannot be instrumented, an exact subclass that counts every item it hands
+# out can -- isinstance() checks and the generated code take the same path for it)
+
+class _CountIter:
+    def __init__(self, it, who):
+        self._it, self._who = it, who
+
+    def __iter__(self):
+        return self
+
+    def __next__(self):
+        v = next(self._it)
+        READS.append((self._who, '__next__'))
+        return v
+
+
+class _CountView:
+    def __init__(self, view, who):
+        self._v, self._who = view, who
+
+    def __iter__(self):
+        return _CountIter(iter(self._v), self._who)
+
+    def __len__(self):
+        return len(self._v)
+
+    def __contains__(self, k):
+        return k in self._v
+
+
+class CDict(dict):
+    def __iter__(self):
+        return _CountIter(dict.__iter__(self), 'CDict')
+
+    def keys(self):
+        return _CountView(dict.keys(self), 'CDict.keys')
+
+    def values(self):
+        return _CountView(dict.values(self), 'CDict.values')
+
+    def items(self):
+        return _CountView(dict.items(self), 'CDict.items')
+
+    def __getitem__(self, k):
+        READS.append(('CDict', '__getitem__'))
+        return dict.__getitem__(self, k)
+
+
+class CList(list):
+    def __iter__(self):
+        return _CountIter(list.__iter__(self), 'CList')
+
+    def __getitem__(self, i):
+        READS.append(('CList', '__getitem__'))
+        return list.__getitem__(self, i)
+
+
+def counting(obj):
+    """obj with every exact builtin dict / list (recursively, through dict values, list and tuple items) replaced by a
+    counting subclass instance."""
+    if type(obj) is dict:
+        return CDict((k, counting(v)) for k, v in obj.items())
+    if type(obj) is list:
+        return CList(counting(v) for v in obj)
+    if type(obj) is tuple:
+        return tuple(counting(v) for v in obj)
+    return obj
+
+
+def enlarged(obj, n=40):
+    """A bigger object of the same shape: every exact builtin dict / list reachable through dict values, list and tuple
+    items is padded to n entries with copies of its first entry (fresh keys of the first key's type), so that whatever
+    verdict the small object gets for reasons of *shape* the big one gets too -- and a cost that grows with size shows."""
+    if type(obj) is dict and obj:
+        k0 = next(iter(obj))
+        v0 = obj[k0]
+        out = {k: enlarged(v, n) for k, v in obj.items()}
+        mk = {int: lambda i: 100000 + i, str: lambda i: 'k%d' % i, bytes: lambda i: b'k%d' % i,
+              float: lambda i: 100000.5 + i}.get(type(k0))
+        if mk is not None:
+            i = 0
+            while len(out) < n:
+                out.setdefault(mk(i), enlarged(v0, n))
+                i += 1
+        return out
+    if type(obj) is list and obj:
+        out = [enlarged(v, n) for v in obj]
+        while len(out) < n:
+            out.append(enlarged(obj[0], n))
+        return out
+    if type(obj) is tuple:
+        return tuple(enlarged(v, n) for v in obj)
+    return obj
